@@ -46,6 +46,29 @@ str_of_any = z3.Function("str_of_any", V, StrS)
 int_of_str = z3.Function("int_of_str", StrS, IntS)
 counter_of = z3.Function("counter_of", IntS, ElemArr, V)   # Counter(list) as abstract value
 set_card = z3.Function("set_card", MemArr, IntS)
+seq_of = z3.Function("seq_of", IntS, ElemArr, V)        # abstract key of a list's contents (injective, see axiom)
+
+
+def seq_of_injective():
+    n1, n2 = z3.Ints("sq_n1 sq_n2")
+    e1, e2 = z3.Consts("sq_e1 sq_e2", ElemArr)
+    return z3.ForAll([n1, e1, n2, e2], z3.Implies(seq_of(n1, e1) == seq_of(n2, e2), z3.And(n1 == n2, e1 == e2)),
+                     patterns=[z3.MultiPattern(seq_of(n1, e1), seq_of(n2, e2))])
+
+
+def congruence_helpers():
+    """contrapositive of congruence for functions of (len, contents): makes the solver consider
+    array (dis)equality of the contents, which triggers extensionality"""
+    n1, n2 = z3.Ints("cg_n1 cg_n2")
+    e1, e2 = z3.Consts("cg_e1 cg_e2", ElemArr)
+    s1, s2 = z3.Consts("cg_s1 cg_s2", StrS)
+    out = []
+    for f in (seq_of, counter_of):
+        out.append(z3.ForAll([n1, e1, n2, e2], z3.Or(f(n1, e1) == f(n2, e2), n1 != n2, e1 != e2),
+                             patterns=[z3.MultiPattern(f(n1, e1), f(n2, e2))]))
+    out.append(z3.ForAll([s1, n1, e1, n2, e2], z3.Or(str_join(s1, n1, e1) == str_join(s1, n2, e2), n1 != n2, e1 != e2),
+                         patterns=[z3.MultiPattern(str_join(s1, n1, e1), str_join(s1, n2, e2))]))
+    return out
 
 _fresh = [0]
 
